@@ -6,6 +6,7 @@
 -- `r` satisfies `Inv r := r < p` and denotes the residue `val r = (r : ZMod p)`.
 import WinterProofs.Lemmas.C07F128Z
 import WinterProofs.Lemmas.C07F128Inv
+import WinterProofs.Lemmas.C07F128InvGen
 import WinterProofs.Lemmas.C07Bytes
 import WinterProofs.Lemmas.Primes
 
@@ -110,6 +111,36 @@ theorem exp_correct (a e : Nat) (ha : Inv a) (he : e < 2 ^ 128) :
 theorem inv_correct (a : Nat) (ha : Inv a) :
     ∃ r, Model.F128.inv a = .done r ∧ Inv r ∧ val r = (val a)⁻¹ :=
   inv_total a ha
+
+/-- inversion, stated about the code AS TRANSLATED ON THIS RUN (tie T): `Gen.F128Inv.inv N` is
+    generated from `fn inv` of math/src/field/f128/mod.rs — its four `while` loops on the 64-bit limbs
+    `(a0,a1,a2)`, `(u0,u1,u2)`, `(d0,d1,d2)` and the `u128` `v`, each with fuel `N` — so any change to
+    those loops changes the definitions this theorem is about.  For every fuel `N ≥ 800` (hence
+    independently of the fuel) the result is the canonical inverse, zero maps to zero, and no
+    executed step overflows or underflows (`inv_ok`, including the `_ok` of the limb helpers in every
+    iteration).  `Model.F128.inv` stays the executable model of the line-protocol correspondence
+    (tie K); `F128G.gen_inv_refines` proves the two agree. -/
+theorem inv_gen_correct (a N : Nat) (ha : Inv a) (hN : 800 ≤ N) :
+    Inv (Gen.F128Inv.inv N a) ∧ val (Gen.F128Inv.inv N a) = (val a)⁻¹ ∧
+      Gen.F128Inv.inv_ok N a = true := by
+  obtain ⟨r, hr, hri, hrv⟩ := inv_total a ha
+  obtain ⟨hg, hok⟩ := F128G.gen_inv_refines a r N ha hN hr
+  rw [hg]
+  exact ⟨hri, hrv, hok⟩
+
+/-- the translated loops and the hand model return the same word, whatever fuel `N ≥ 800` -/
+theorem inv_gen_eq_model (a N : Nat) (ha : Inv a) (hN : 800 ≤ N) :
+    Model.F128.inv a = .done (Gen.F128Inv.inv N a) := by
+  obtain ⟨r, hr, _, _⟩ := inv_total a ha
+  rw [(F128G.gen_inv_refines a r N ha hN hr).1]
+  exact hr
+
+/-- a concrete non-trivial word (the one that needs eleven final reductions) and a concrete fuel -/
+example : Inv (Gen.F128Inv.inv 800 340282366920938463463374557953744860744) ∧
+    val (Gen.F128Inv.inv 800 340282366920938463463374557953744860744)
+      = (val 340282366920938463463374557953744860744)⁻¹ ∧
+    Gen.F128Inv.inv_ok 800 340282366920938463463374557953744860744 = true :=
+  inv_gen_correct _ _ (by unfold F128Z.Inv; decide) (by norm_num)
 
 theorem div_correct (a b : Nat) (ha : Inv a) (hb : Inv b) :
     ∃ r, Model.F128.impl.div a b = .done r ∧ Inv r ∧ val r = val a / val b := by
